@@ -126,7 +126,7 @@ pub fn run(ctx: &Ctx, ev: &mut Ev) {
                     }
                 }
                 // BOMs in front
-                for bom in [&[0xEFu8, 0xBB, 0xBF][..], &[0xFE, 0xFF], &[0xFF, 0xFE], &[0xEF, 0xBB]] { let mut v = bom.to_vec(); v.extend_from_slice(&base); check_decode(&mut drv, ev, enc, &v, len % 16, true); }
+                for bom in [&[0xEFu8, 0xBB, 0xBF][..], &[0xFE, 0xFF], &[0xFF, 0xFE], &[0xEF, 0xBB], &[0xEF, 0xBB, 0xBF, 0xEF, 0xBB, 0xBF], &[0xFF, 0xFE, 0xFF, 0xFE], &[0xFE, 0xFF, 0xFE, 0xFF], &[0xEF, 0xBB, 0xBF, 0xFF, 0xFE], &[0xFF, 0xFE, 0xEF, 0xBB, 0xBF], &[0xFE, 0xFF, 0xFF, 0xFE]] { let mut v = bom.to_vec(); v.extend_from_slice(&base); check_decode(&mut drv, ev, enc, &v, len % 16, true); }
                 // encode: ASCII text with one non-ASCII / escape character at each position
                 let tbase: Vec<u32> = (0..len.min(300)).map(|i| 0x61 + (i % 26) as u32).collect();
                 check_encode(&mut drv, ev, enc, &tbase, len % 16, true);
@@ -161,7 +161,7 @@ pub fn run(ctx: &Ctx, ev: &mut Ev) {
         for i in 0..n {
             let enc = ALL[r.below(40)];
             let mut v: Vec<u8> = vec![];
-            if r.chance(3) { v.extend_from_slice([&[0xEFu8, 0xBB, 0xBF][..], &[0xFE, 0xFF], &[0xFF, 0xFE], &[0xEF, 0xBB], &[0xFE]][r.below(5)]); }
+            if r.chance(3) { for _ in 0..1 + r.below(2) { v.extend_from_slice([&[0xEFu8, 0xBB, 0xBF][..], &[0xFE, 0xFF], &[0xFF, 0xFE], &[0xEF, 0xBB], &[0xFE]][r.below(5)]); } }
             let plen = if i % 20 == 0 && !tiny { r.below(4200) } else { r.below(if tiny { 20 } else { 200 }) };
             for k in 0..plen { v.push(0x61 + (k % 26) as u8); }
             let tail = random_stream(&mut r, enc, if tiny { 1 } else { 4 }); v.extend_from_slice(&tail[..tail.len().min(400)]);
